@@ -44,10 +44,10 @@ def main():
             "name": "coq-model+correspondence",
             "path": "coq/ (models, proofs, Properties/), runner/mrun.ml (extracted model runner), harness/ (correspondence, oracles)",
             "serves_properties": sorted(CHECKS),
-            "kind_free_text": "Coq 8.16.1 theorems over hand-written executable Gallina models; models tied to /repo by differential correspondence (extracted OCaml runner + vm_compute cross-check) on every run",
+            "kind_free_text": "Coq 8.16.1 theorems (434, all closed under the global context; coqchk -o: no axioms) over hand-written executable Gallina models; models tied to /repo on every run by differential correspondence (extracted OCaml runner + vm_compute cross-check) with a code-only oracle per property, and, for the pure functions of C03 C04 C07 C08 C16 C18 C19, by model text regenerated from the source with a fail-closed Python->Coq translator and re-checked equivalence theorems",
         }],
         "checks": checks,
-        "notes": "See DESIGN.md. fix: commits in /repo are listed in known_findings.json as fixed entries.",
+        "notes": "See DESIGN.md (section 9 = as built) and README.md. The 39 fix: commits in /repo are listed in known_findings.json as fixed entries (they suppress nothing); two open entries (C15) are reported as KNOWN-FINDING lines. seeded/ holds 84 independently produced property-breaking changes (all caught) and 11 benign refactorings (all quiet); RESULTS.json / RESULTS-seed1.json record what the checks reported.",
         "not_applicable": [{"property_id": p, "reason": NOT_CLAIMED.get(p, NOT_YET)} for p in ALL if p not in CHECKS],
     }
     (VERIF / "MANIFEST.json").write_text(json.dumps(man, indent=1) + "\n")
